@@ -1,11 +1,14 @@
-"""Which record names does a value look up in a prototype?  (shared by C14 / C10 / C13 / C05 rules)
+"""Which record names does a value look up in a prototype?  (shared by the C14 / C10 rules)
 
-A "lookup" is `proto.iter().any(|p| p.name == N)`, `.find(..)`, `.position(..)`, a call of a local helper whose result is
-such an expression over one of its parameters (pc_writer::contains / get), or `[N1, N2].into_iter().any(|n| helper(proto, n))`.
-The result is the list of RecordName variants compared, in source order, independent of how the lookup is spelled."""
+A "lookup" is `proto.iter().any(|p| p.name == N)`, `.find(..)`, `.position(..)`, `.filter(..).count()`, a call of a
+local helper whose result is such an expression over its parameters (pc_writer::contains / get / count helpers), or
+`[N1, N2].into_iter().any(|n| helper(proto, n))`.  The result is the list of RecordName variants compared, in source
+order, independent of how the lookup is spelled.  Items are symbolic while inside a callee / closure:
+  'Variant' | ('param', j) value of parameter j | ('elems', j) the elements of the array parameter j
+  | ('cap', i) captured variable i of a closure | ('elem',) the element a closure is applied to"""
 from mirlib import *
 
-ITER_QUERIES = ("any", "find", "position", "all", "filter", "find_map", "rposition")
+ITER_QUERIES = ("any", "find", "position", "all", "filter", "find_map", "rposition", "count", "contains")
 
 
 def enum_const(t):
@@ -20,37 +23,36 @@ def enum_const(t):
 def _capture_index(g):
     """closure body g: captured variable name -> position in the closure aggregate"""
     out = {}
+
+    def visit(pl):
+        if pl["local"] == 1:
+            for e in pl["proj"]:
+                if e["k"] == "field" and str(e.get("adt", "")).startswith("closure"):
+                    out[e["name"] if e["name"] else str(e["idx"])] = e["idx"]
     for b in g.blocks:
         if b["cleanup"]:
             continue
-        places = []
         for st in b["stmts"]:
-            places.append(st["place"])
+            visit(st["place"])
             rv = st["rv"]
-            for key in ("place",):
-                if key in rv:
-                    places.append(rv[key])
+            if "place" in rv:
+                visit(rv["place"])
             for key in ("op", "a", "b"):
-                if key in rv and isinstance(rv[key], dict) and rv[key].get("k") in ("copy", "move"):
-                    places.append(rv[key]["place"])
-            for o in rv.get("ops", []) if rv["k"] == "aggregate" else []:
-                if o.get("k") in ("copy", "move"):
-                    places.append(o["place"])
+                if isinstance(rv.get(key), dict) and rv[key].get("k") in ("copy", "move"):
+                    visit(rv[key]["place"])
+            if rv["k"] == "aggregate":
+                for o in rv["ops"]:
+                    if o.get("k") in ("copy", "move"):
+                        visit(o["place"])
         t = b["term"]
         if t["k"] == "call":
             for a in t["args"]:
                 if a.get("k") in ("copy", "move"):
-                    places.append(a["place"])
-        for pl in places:
-            if pl["local"] == 1:
-                for e in pl["proj"]:
-                    if e["k"] == "field" and str(e.get("adt", "")).startswith("closure"):
-                        out[e["name"] if e["name"] else str(e["idx"])] = e["idx"]
+                    visit(a["place"])
     return out
 
 
-def _iterated_consts(t):
-    """enum constants of an array / slice literal that is being iterated"""
+def _array_consts(t):
     for x in leaves(t):
         if x[0] == "agg" and x[1][0] == "array":
             vals = [enum_const(o) for o in x[2]]
@@ -59,94 +61,143 @@ def _iterated_consts(t):
     return None
 
 
-def _closure_names(prog, cdef, cops, iterated, depth):
-    g = prog.fns.get(cdef)
-    if g is None:
-        return None
-    Rg = Resolver(g)
-    cap = _capture_index(g)
-    out = []
-
-    def value(tr):
-        v = enum_const(tr)
-        if v:
-            return v
-        x = strip(tr)
-        while x[0] == "cast":
-            x = strip(x[2])
-        if x[0] == "field" and strip(x[1]) == ("param", 1) and x[2] in cap and cap[x[2]] < len(cops):
-            w = cops[cap[x[2]]]
-            return enum_const(w) or (strip(w) if strip(w)[0] == "param" else None)
+def _value_item(g, cap, tr):
+    """symbolic item for an operand of a name comparison inside function / closure g"""
+    v = enum_const(tr)
+    if v:
+        return v
+    x = strip(tr)
+    while x[0] == "cast":
+        x = strip(x[2])
+    if g.kind == "Closure":
+        if x[0] == "field" and strip(x[1]) == ("param", 1) and x[2] in cap:
+            return ("cap", cap[x[2]])
         if x[0] == "param" and x[1] >= 2:
             return ("elem",)
-        return None
+        if x[0] == "field" and x[2] == "name":
+            return None        # the .name of the element / a record: the thing being compared, not a name constant
+        if x[0] == "field" and strip(x[1])[0] == "param" and strip(x[1])[1] >= 2:
+            return ("elem",)
+    elif x[0] == "param":
+        return ("param", x[1])
+    return None
+
+
+def _body_items(prog, g, depth):
+    """items compared / looked up anywhere in the body of g (a closure or a helper)"""
+    Rg = Resolver(g)
+    cap = _capture_index(g) if g.kind == "Closure" else {}
+    out = []
     for bi, t in g.calls():
         c = callee_of(t)
         last = c.rsplit("::", 1)[-1]
         if last in ("eq", "ne") and "RecordName" in c:
             for a in t["args"][:2]:
-                v = value(Rg.operand(a))
-                if v and v != ("elem",):
+                v = _value_item(g, cap, Rg.operand(a))
+                if v is not None:
                     out.append(v)
-                elif v == ("elem",):
-                    consts = _iterated_consts(iterated)
-                    if consts:
-                        out.extend(consts)
-        elif c in prog.fns and depth < 3:
-            h = prog.fns[c]
-            inner = lookup_names(prog, h, Resolver(h).local(0), depth + 1)
-            if inner:
-                for item in inner:
-                    if isinstance(item, tuple) and item[0] == "param":
-                        v = value(Rg.operand(t["args"][item[1] - 1])) if item[1] - 1 < len(t["args"]) else None
-                        if v == ("elem",):
-                            consts = _iterated_consts(iterated)
-                            out.extend(consts or [])
-                        elif v:
-                            out.append(v)
-                    else:
-                        out.append(item)
+        elif (c in prog.fns or last in ITER_QUERIES) and depth < 4:
+            tree = Rg._call(t, bi, 0, frozenset())
+            for item in _call_items(prog, g, tree, depth + 1) or []:
+                # items are already expressed in terms of g: map g's own parameters when g is a closure
+                if g.kind == "Closure" and isinstance(item, tuple) and item[0] == "param":
+                    item = ("elem",) if item[1] >= 2 else None
+                if item is not None:
+                    out.append(item)
     return out
 
 
-def lookup_names(prog, f, t, depth=0):
-    """list of RecordName variants (or ('param', j) of f) the value t looks up; None when t is not a lookup"""
+def _call_items(prog, g, t, depth):
+    """items looked up by the call tree t, expressed in terms of the enclosing function g"""
+    t = strip(t)
+    if t[0] != "call":
+        return None
+    c, args = t[1], t[2]
+    last = c.rsplit("::", 1)[-1]
+    Rg = None
+    cap = _capture_index(g) if g.kind == "Closure" else {}
+    if last in ITER_QUERIES and args and c not in prog.fns:
+        cl = [x for a in args[1:] for x in [strip(a)] if x[0] == "agg" and x[1][0] == "closure"]
+        if not cl:
+            return _call_items(prog, g, args[0], depth) if strip(args[0])[0] == "call" else None
+        cdef, cops = cl[0][1][1], cl[0][2]
+        h = prog.fns.get(cdef)
+        if h is None:
+            return None
+        out = []
+        for item in _body_items(prog, h, depth):
+            if isinstance(item, tuple) and item[0] == "cap":
+                w = cops[item[1]] if item[1] < len(cops) else None
+                v = _value_item(g, cap, w) if w is not None else None
+                if v is not None:
+                    out.append(v)
+            elif item == ("elem",):
+                consts = _array_consts(args[0])
+                if consts:
+                    out.extend(consts)
+                else:
+                    # iterating an array parameter of g
+                    for x in leaves(args[0]):
+                        if x[0] == "param":
+                            out.append(("elems", x[1]))
+                            break
+            else:
+                out.append(item)
+        return out
+    h = prog.fns.get(c)
+    if h is not None and depth < 4:
+        inner = []
+        rt = Resolver(h).local(0)
+        inner = _tree_items(prog, h, rt, depth + 1) or []
+        out = []
+        for item in inner:
+            if isinstance(item, tuple) and item[0] in ("param", "elems"):
+                a = args[item[1] - 1] if item[1] - 1 < len(args) else None
+                if a is None:
+                    continue
+                if item[0] == "param":
+                    v = _value_item(g, cap, a)
+                    if v is not None:
+                        out.append(v)
+                else:
+                    consts = _array_consts(a)
+                    if consts:
+                        out.extend(consts)
+                    elif strip(a)[0] == "param":
+                        out.append(("elems", strip(a)[1]))
+            else:
+                out.append(item)
+        return out
+    if args and strip(args[0])[0] == "call":
+        return _call_items(prog, g, args[0], depth)
+    return None
+
+
+def _tree_items(prog, g, t, depth):
     t = strip(t)
     while t[0] in ("cast", "field", "discr", "unop"):
         t = strip(t[1] if t[0] in ("field", "discr") else t[2])
     if t[0] == "phi":
         out = []
         for a in t[1]:
-            r = lookup_names(prog, f, a, depth)
-            if r:
-                out.extend(x for x in r if x not in out)
+            for x in _tree_items(prog, g, a, depth) or []:
+                if x not in out:
+                    out.append(x)
         return out or None
-    if t[0] != "call":
-        return None
-    c, args = t[1], t[2]
-    last = c.rsplit("::", 1)[-1]
-    if last in ITER_QUERIES and args:
-        cl = [x for a in args[1:] for x in [strip(a)] if x[0] == "agg" and x[1][0] == "closure"]
-        if cl:
-            return _closure_names(prog, cl[0][1][1], cl[0][2], args[0], depth)
-        return None
-    g = prog.fns.get(c)
-    if g is not None and depth < 3:
-        inner = lookup_names(prog, g, Resolver(g).local(0), depth + 1)
-        if inner:
-            out = []
-            for item in inner:
-                if isinstance(item, tuple) and item[0] == "param":
-                    a = args[item[1] - 1] if item[1] - 1 < len(args) else None
-                    v = enum_const(a) if a is not None else None
-                    if v:
-                        out.append(v)
-                    elif a is not None and strip(a)[0] == "param":
-                        out.append(strip(a))
-                else:
-                    out.append(item)
-            return out
-    # a combinator applied to a lookup: x.map(..), x.is_some(), x.then(..)
-    if args:
-        return lookup_names(prog, f, args[0], depth)
-    return None
+    return _call_items(prog, g, t, depth)
+
+
+def lookup_names(prog, f, t, depth=0):
+    """list of RecordName variants (or ('param', j) / ('elems', j) of f) the value t looks up; None when t is no lookup"""
+    r = _tree_items(prog, f, t, depth)
+    return r or None
+
+
+def iterates_prototype(prog, f, t):
+    """does the counting / filtering expression t iterate the *names* (each name once) rather than the records?"""
+    t = strip(t)
+    while t[0] == "call" and t[2] and t[1].rsplit("::", 1)[-1] in ("count", "filter", "into_iter", "iter", "copied", "cloned"):
+        if t[1].rsplit("::", 1)[-1] == "filter":
+            return _array_consts(t[2][0]) is None and not any(x[0] == "agg" and x[1][0] == "array" for x in leaves(t[2][0]))
+        t = strip(t[2][0])
+    return False
